@@ -138,10 +138,13 @@ def replay(case, ctx):
                     r.mismatches.append({'what': what + ' keep list', 'got': repr(keep), 'want': repr(keep_snapshot), 'signature': 'mutated:keep', 'detail': ctxs})
                 pz = project_network(z)
                 # structure: same ids, terminals, order; element electrically = the specification's
-                ok = len(pz['br']) == len(snet_spec) and pz['ref'] == naming.node(ref)
+                # matched by identifier: the order of the branch list is not part of the property
+                by_id = {pb['id']: pb for pb in pz['br']}
+                ok = len(pz['br']) == len(snet_spec) and len(by_id) == len(pz['br']) and pz['ref'] == naming.node(ref) and all(ids[sb['id']] in by_id for sb in snet_spec)
                 if ok:
-                    for pb, sb, ob in zip(pz['br'], snet_spec, br):
-                        if not (pb['id'] == ids[sb['id']] and pb['n1'] == naming.node(sb['n1']) and pb['n2'] == naming.node(sb['n2']) and same_elem(pb, sb['e'], zu, vu)):
+                    for sb, ob in zip(snet_spec, br):
+                        pb = by_id[ids[sb['id']]]
+                        if not (pb['n1'] == naming.node(sb['n1']) and pb['n2'] == naming.node(sb['n2']) and same_elem(pb, sb['e'], zu, vu)):
                             ok = False
                         if opname == 'both' and ob['e'] != sb['e'] and ob['id'] not in keep_ids:
                             oe = ob['e']
